@@ -4,6 +4,8 @@
 
 #!/usr/bin/env python3
 
+from antlr4.error.ErrorListener import ErrorListener
+
 from gambatools.regexp import *
 from gambatools.regexp_simpleParser import *
 from gambatools.regexp_simpleVisitor import *
@@ -53,10 +55,21 @@ class regexp_simpleVisitor(regexp_simpleVisitor):
         return self.visit(ctx.expression())
 
 
+class RaisingErrorListener(ErrorListener):
+    def syntaxError(self, recognizer, offendingSymbol, line, column, msg, e):
+        raise RuntimeError('syntax error in regular expression at position {}: {}'.format(column, msg))
+
+
 def parse_simple_regexp(text):
     lexer = regexp_simpleLexer(InputStream(text))
+    lexer.removeErrorListeners()
+    lexer.addErrorListener(RaisingErrorListener())
     stream = CommonTokenStream(lexer)
     parser = regexp_simpleParser(stream)
+    parser.removeErrorListeners()
+    parser.addErrorListener(RaisingErrorListener())
     tree = parser.expression()
+    if stream.LA(1) != Token.EOF:
+        raise RuntimeError('syntax error in regular expression: unexpected input {}'.format(stream.LT(1).text))
     visitor = regexp_simpleVisitor()
     return visitor.visit(tree)
